@@ -462,7 +462,7 @@ impl<'a> Gen<'a> {
     pub fn generate(r: &'a mut Rng, p: &'a Preset, stats: &'a mut Probes, run: u64) -> (Trace, Cfg) {
         let cfg = draw_cfg(r, p);
         let special = [0u16, 1, 2, 5, 6, 127, 128, 16383];
-        let mut pick_num = |r: &mut Rng| if r.chance(1, 3) { *r.pick(&special) } else { r.below(16384) as u16 };
+        let pick_num = |r: &mut Rng| if r.chance(1, 3) { *r.pick(&special) } else { r.below(16384) as u16 };
         let numbers = [(pick_num(r), r.chance(1, 2)), (pick_num(r), r.chance(1, 2))];
         let mut g = Gen { r, p, cfg, ev: Vec::new(), next_group: 0, uniq: [0; 16], numbers, inflight: [false; 16], pending_value: [false; 16], stats, rr_next: 0, stall_left: 0, snap_state: None, recent: {
             // seeded with bytes a message shares with itself: channel number, low bits of the CC status byte
